@@ -1007,7 +1007,7 @@ func selectReverseStrategy(n *nfa.NFA, re *syntax.Regexp, literals *literal.Seq,
 	// This check MUST come BEFORE the prefix literal check!
 	if isSafeForMultilineReverseSuffix(re) {
 		suffixLiterals := extractor.ExtractSuffixes(re)
-		if suffixLiterals != nil && !suffixLiterals.IsEmpty() {
+		if suffixLiterals != nil && !suffixLiterals.IsEmpty() && !suffixLiterals.IsPartialCoverage() {
 			lcs := suffixLiterals.LongestCommonSuffix()
 			if len(lcs) >= config.MinLiteralLen {
 				return UseMultilineReverseSuffix
@@ -1037,6 +1037,11 @@ func selectReverseStrategy(n *nfa.NFA, re *syntax.Regexp, literals *literal.Seq,
 	// No good/fast prefix - check suffix and inner literals
 	// Check suffix literals (for patterns like `.*\.txt`)
 	suffixLiterals := extractor.ExtractSuffixes(re)
+	if suffixLiterals != nil && suffixLiterals.IsPartialCoverage() {
+		// Truncated suffix set: some branches have no representative, so no
+		// suffix-driven strategy may gate on it.
+		suffixLiterals = nil
+	}
 	if suffixLiterals != nil && !suffixLiterals.IsEmpty() {
 		lcs := suffixLiterals.LongestCommonSuffix()
 		if len(lcs) >= config.MinLiteralLen {
@@ -1060,6 +1065,9 @@ func selectReverseStrategy(n *nfa.NFA, re *syntax.Regexp, literals *literal.Seq,
 
 	// No prefix or suffix - try inner literal (for patterns like `.*keyword.*`)
 	innerInfo := extractor.ExtractInnerForReverseSearch(re)
+	if innerInfo != nil && innerInfo.Literals.IsPartialCoverage() {
+		innerInfo = nil
+	}
 	if innerInfo != nil {
 		lcp := innerInfo.Literals.LongestCommonPrefix()
 		// Single-character inner literals like "@" can be effective for email patterns
